@@ -96,8 +96,7 @@ Proof. intros d k torn. unfold crash_kill. rewrite firstn_nil. destruct torn; [d
 Lemma crash_all : forall d effs k torn, (length effs <= k)%nat -> crash_kill d effs k torn = apply_effs d effs.
 Proof.
   intros d effs k torn H. unfold crash_kill. rewrite firstn_all2 by exact H.
-  destruct torn; [|reflexivity]. destruct (nth_error effs k) eqn:E; [|reflexivity].
-  apply nth_error_Some in H. - contradiction. - rewrite E. discriminate.
+  destruct torn; [|reflexivity]. apply nth_error_None in H. rewrite H. reflexivity.
 Qed.
 
 Definition AllRec (c : cfg) (lst : store) (d : dir) (effs : list eff) : Prop :=
@@ -161,12 +160,18 @@ Proof.
   apply apply_eff_other. apply H. left. reflexivity.
 Qed.
 
+Lemma in_firstn : forall A (l : list A) n x, In x (firstn n l) -> In x l.
+Proof.
+  intros A l. induction l as [|y r IH]; intros n x H; destruct n; cbn in H; try contradiction.
+  destruct H as [->|H]; [left; reflexivity|right; eapply IH; exact H].
+Qed.
+
 Lemma crash_other : forall effs d k torn x, (forall e, In e effs -> ~ In x (touches e)) ->
   dget (crash_kill d effs k torn) x = dget d x.
 Proof.
   intros effs d k torn x H. unfold crash_kill.
   assert (A : dget (apply_effs d (firstn k effs)) x = dget d x).
-  { apply apply_effs_other. intros e He. apply H. eapply firstn_In. exact He. }
+  { apply apply_effs_other. intros e He. apply H. eapply in_firstn. exact He. }
   destruct torn; [|exact A]. destruct (nth_error effs k) as [e|] eqn:E; [|exact A].
   rewrite torn_eff_other; [exact A|]. apply H. eapply nth_error_In. exact E.
 Qed.
@@ -251,4 +256,566 @@ Proof.
       intros e x He Hx. left. cbn in He. destruct He as [<-|[<-|[<-|[]]]]; cbn in Hx; try contradiction;
         destruct Hx as [<-|[]]; reflexivity.
     + assert (k = 0 \/ k = 1 \/ k = 2 \/ k = 3)%nat as [->|[->|[->| ->]]] by lia; destruct torn; reflexivity.
+Qed.
+
+(* ------------------------------------------------------------------------------------------ *)
+(* 3. Appending frames (one write each, then the fsync of the policy)                          *)
+(* ------------------------------------------------------------------------------------------ *)
+
+Lemma seqs_from_firstn : forall es b k, seqs_from b es -> seqs_from b (firstn k es).
+Proof.
+  induction es as [|e r IH]; intros b k H; destruct k; cbn; try exact I.
+  destruct H as [E H]. split; [exact E|apply IH; exact H].
+Qed.
+
+Lemma forall_firstn : forall A (P : A -> Prop) l k, Forall P l -> Forall P (firstn k l).
+Proof.
+  intros A P l k H. apply Forall_forall. intros x Hx. rewrite Forall_forall in H. apply H.
+  eapply in_firstn. exact Hx.
+Qed.
+
+Lemma crash_fsync_nop : forall c a d j torn, crash_kill d (fsync_effs c a) j torn = d.
+Proof.
+  intros c a d j torn. unfold fsync_effs. destruct (c_fsync c); destruct j as [|[|j]]; destruct torn; reflexivity.
+Qed.
+
+(* a torn frame at the end of the active segment is invisible to the reader *)
+Lemma InvD_torn_Rec : forall c lst d a nx frs, InvD c lst d a nx ->
+  dget d a = Some (FWal frs Clean) -> Rec c lst (dset d a (FWal frs Torn)).
+Proof.
+  intros c lst d a nx frs H Ha.
+  pose proof H as (m & sdocs & sseq & Hm & [pre Hpre] & Hnd & Hw & Hg & Hs & Hok & Hmx & Hrp).
+  assert (Hin : In a (m_segments m)) by (rewrite Hpre; apply in_or_app; right; left; reflexivity).
+  assert (Hwa : is_wal a) by (rewrite Forall_forall in Hw; apply Hw; exact Hin).
+  destruct (is_wal_neq _ Hwa) as (N1 & N2 & N3 & N4).
+  set (d' := dset d a (FWal frs Torn)).
+  assert (Hent : forall x, entries_of d' x = entries_of d x).
+  { intros x. unfold entries_of, d'. destruct (name_eqb_spec x a) as [->|Hne].
+    - rewrite dget_dset_same, Ha. reflexivity.
+    - rewrite dget_dset_other by exact Hne. reflexivity. }
+  assert (Hall : all_entries d' (m_segments m) = all_entries d (m_segments m)).
+  { unfold all_entries. clear - Hent. induction (m_segments m) as [|x r IH]; cbn; [reflexivity|].
+    rewrite Hent, IH. reflexivity. }
+  exists m, sdocs, sseq, nx. rewrite Hall.
+  split; [unfold d'; rewrite dget_dset_other by congruence; exact Hm|]. split; [exact Hw|].
+  split; [|split; [|split; [exact Hok|exact Hrp]]].
+  - intros nm Hi. destruct (name_eqb_spec nm a) as [->|Hne].
+    + destruct (Hg a Hin) as [es He]. rewrite Ha in He. inversion He; subst.
+      exists es, Torn. unfold d'. rewrite dget_dset_same. split; [reflexivity|discriminate].
+    + apply wal_good_readable. apply (wal_good_agree d d'); [unfold d'; apply dget_dset_other; exact Hne|].
+      apply Hg. exact Hi.
+  - apply (snap_ok_agree c d d'); [|exact Hs]. intros nm E. unfold d'. apply dget_dset_other.
+    destruct Hs as [_ Hs]. rewrite E in Hs. destruct Hs as (k & sn & -> & _). apply not_eq_sym. apply N3.
+Qed.
+
+Lemma append_effs_length : forall a es, length (append_effs a es) = length es.
+Proof. intros. unfold append_effs. apply map_length. Qed.
+
+Lemma append_effs_firstn : forall a es k, firstn k (append_effs a es) = append_effs a (firstn k es).
+Proof. intros. unfold append_effs. apply firstn_map. Qed.
+
+(* crash after k complete frames (k <= all), possibly with a torn next frame: the directory encodes the
+   first k entries applied to lst *)
+Lemma append_crash : forall c lst d a nx es k torn,
+  InvD c lst d a nx -> seqs_from nx es ->
+  Forall (fun e => e_op e = Ins -> len (e_vec e) = c_dim c) es ->
+  Rec c (fold_left apply_entry (firstn k es) lst)
+      (crash_kill d (append_effs a es ++ fsync_effs c a) k torn).
+Proof.
+  intros c lst d a nx es k torn H Hs Hd.
+  pose proof (InvD_append c lst d a nx (firstn k es) H (seqs_from_firstn _ _ k Hs) (forall_firstn _ _ _ k Hd)) as HI.
+  rewrite apply_effs_app, fsync_effs_nop in HI.
+  destruct (Nat.lt_ge_cases k (length es)) as [L|G].
+  - rewrite crash_app_lt by (rewrite append_effs_length; exact L).
+    unfold crash_kill. rewrite append_effs_firstn.
+    destruct torn; [|eapply InvD_Rec; exact HI].
+    change (nth_error (append_effs a es) k) with (nth_error (map (fun e => EAppend a (BFrame (Good e))) es) k).
+    rewrite nth_error_map.
+    destruct (nth_error es k) as [e|] eqn:E; [|apply nth_error_None in E; lia].
+    cbn [option_map torn_eff].
+    pose proof HI as (m & sdocs & sseq & Hm & [pre Hpre] & _ & _ & Hg & _).
+    destruct (Hg a) as [es0 He0]; [rewrite Hpre; apply in_or_app; right; left; reflexivity|].
+    rewrite He0. eapply InvD_torn_Rec; [exact HI|exact He0].
+  - assert (Ek : crash_kill d (append_effs a es ++ fsync_effs c a) k torn = apply_effs d (append_effs a es)).
+    { replace k with (length (append_effs a es) + (k - length es))%nat by (rewrite append_effs_length; lia).
+      rewrite crash_app_ge, crash_fsync_nop. reflexivity. }
+    rewrite Ek. rewrite firstn_all2 in HI by lia. rewrite firstn_all2 by lia. eapply InvD_Rec. exact HI.
+Qed.
+
+(* ------------------------------------------------------------------------------------------ *)
+(* 4. Rotation and recovery: a fresh segment is created, then listed                           *)
+(* ------------------------------------------------------------------------------------------ *)
+
+Lemma newseg_allrec : forall c lst d a nx m, InvD c lst d a nx ->
+  dget d NManifest = Some (FManifest m) ->
+  AllRec c lst d (new_wal_effs (NWal (fresh_id d)) ++
+                  save_manifest_effs (mkManifest (m_snapshot m) (m_snapshot_seq m)
+                                                 (m_segments m ++ [NWal (fresh_id d)]))).
+Proof.
+  intros c lst d a nx m H Hm.
+  assert (Hf : dget d (NWal (fresh_id d)) = None) by (apply fresh_none; reflexivity).
+  assert (A : AllRec c lst d (new_wal_effs (NWal (fresh_id d))))
+    by (apply AllRec_new_wal; [eapply InvD_Rec; exact H|exact Hf]).
+  apply AllRec_app; [exact A|].
+  apply AllRec_save_manifest; [apply AllRec_end; exact A|].
+  eapply InvD_Rec. exact (InvD_newseg c lst d a nx m H Hm).
+Qed.
+
+Lemma rotate_allrec : forall c lst s, InvDs c lst s ->
+  AllRec c lst (st_disk s) (snd (rotate_if_needed c s)).
+Proof.
+  intros c lst s H. unfold rotate_if_needed.
+  destruct ((c_max_wal c =? 0) || (st_bytes s <? c_max_wal c)).
+  - cbn [snd]. apply AllRec_nil. eapply InvD_Rec. exact H.
+  - pose proof H as (m & sdocs & sseq & Hm & _).
+    assert (Hl : load_manifest (apply_effs (st_disk s) (new_wal_effs (NWal (fresh_id (st_disk s))))) = Some m).
+    { unfold load_manifest. rewrite new_wal_other; [rewrite Hm; reflexivity|apply fresh_none; reflexivity|discriminate]. }
+    rewrite Hl. cbn [snd]. exact (newseg_allrec c lst (st_disk s) (st_active s) (st_next_seq s) m H Hm).
+Qed.
+
+Lemma recover_allrec : forall c s s' effs, wf_cfg c = true -> Inv c s ->
+  recover_full c Strict (st_disk s) = Ok (s', effs) -> AllRec c (st_store s) (st_disk s) effs.
+Proof.
+  intros c s s' effs Hwf [H (Mso & Mdo & Msz & Mcap)] E.
+  pose proof H as (m & sdocs & sseq & Hm & Hpre & Hnd & Hw & Hg & Hs & Hok & Hmx & Hrp).
+  unfold recover_full in E.
+  rewrite (recover_read_ok c (st_disk s) m sdocs sseq (st_next_seq s) Hwf Hm Hs
+             (fun nm Hin => wal_good_readable _ _ (Hg nm Hin)) Hok) in E.
+  rewrite Hrp, (rebuild_docs_ok c _ Mdo) in E.
+  rewrite size_le_cap_ltb in E by lia. rewrite (accepts_all_ok c _ Mdo) in E. cbn [negb] in E.
+  inversion E; subst. exact (newseg_allrec c (st_store s) (st_disk s) (st_active s) (st_next_seq s) m H Hm).
+Qed.
+
+(* ------------------------------------------------------------------------------------------ *)
+(* 5. create_snapshot: snapshot file, pointer, pruned list, unlinks, final save                *)
+(* ------------------------------------------------------------------------------------------ *)
+
+(* any directory whose manifest points at the new snapshot and lists a sub-list of the old segments,
+   those segments being untouched, encodes the live store *)
+Lemma RecM_snapshot : forall c d0 a nx st m0 d segs' k last,
+  InvD c st d0 a nx -> sorted st -> docs_ok c st -> last + 1 = nx ->
+  dget d0 NManifest = Some (FManifest m0) ->
+  (forall x, In x segs' -> In x (m_segments m0)) ->
+  dget d NManifest = Some (FManifest (mkManifest (Some (NSnap k)) (Some last) segs')) ->
+  dget d (NSnap k) = Some (FSnap (mkSnap (store_dim st) (c_metric c) st last)) ->
+  (forall x, In x segs' -> dget d x = dget d0 x) ->
+  RecM c st d (mkManifest (Some (NSnap k)) (Some last) segs').
+Proof.
+  intros c d0 a nx st m0 d segs' k last
+    (m & sdocs & sseq & Hm & Hpre & Hnd & Hw & Hg & Hs & Hok & Hmx & Hrp) Hso Hdo Hlast Hm0 Hsub Hmd Hsn Hag.
+  rewrite Hm in Hm0. inversion Hm0; subst m0. clear Hm0.
+  destruct (snap_valid_store c st (c_metric c) last Hso Hdo) as [Hv Hdim].
+  assert (Hent : all_entries d segs' = all_entries d0 segs') by (apply all_entries_agree; exact Hag).
+  assert (Hall : Forall (fun e => 1 <= e_seq e /\ e_seq e <= last) (all_entries d0 segs')).
+  { apply Forall_forall. intros e He. apply (in_all_entries_sub d0 segs' (m_segments m) e Hsub) in He.
+    rewrite Forall_forall in Hok. destruct (Hok _ He) as (A & B & _). lia. }
+  exists st, last, nx. cbn [m_segments m_snapshot m_snapshot_seq]. rewrite Hent.
+  split; [exact Hmd|]. split; [|split; [|split; [|split]]].
+  - apply Forall_forall. intros x Hx. rewrite Forall_forall in Hw. apply Hw. apply Hsub. exact Hx.
+  - intros nm Hin. apply wal_good_readable. apply (wal_good_agree d0 d); [apply Hag; exact Hin|].
+    apply Hg. apply Hsub. exact Hin.
+  - split; [reflexivity|]. exists k, (mkSnap (store_dim st) (c_metric c) st last).
+    split; [reflexivity|]. split; [exact Hsn|]. split; [exact Hv|]. split; [reflexivity|].
+    split; [reflexivity|]. split; [reflexivity|]. split; [exact Hdim|exact Hso].
+  - apply Forall_forall. intros e He.
+    apply (in_all_entries_sub d0 segs' (m_segments m) e Hsub) in He.
+    rewrite Forall_forall in Hok. exact (Hok _ He).
+  - unfold replay_pure. rewrite (filter_keep_none _ _ Hall). reflexivity.
+Qed.
+
+Lemma snapshot_allrec : forall c s,
+  InvDs c (st_store s) s -> sorted (st_store s) -> docs_ok c (st_store s) ->
+  AllRec c (st_store s) (st_disk s) (snd (create_snapshot c s)).
+Proof.
+  intros c s H Hso Hdo.
+  pose proof H as (m & sdocs & sseq & Hm & [pre Hpre] & Hnd & Hw & Hg & Hs & Hok & Hmx & Hrp).
+  unfold create_snapshot. fold (store_dim (st_store s)).
+  set (last := N.pred (st_next_seq s)).
+  set (sn := mkSnap (store_dim (st_store s)) (c_metric c) (st_store s) last).
+  destruct (snap_valid_store c (st_store s) (c_metric c) last Hso Hdo) as [Hv Hdim].
+  fold sn in Hv. rewrite Hv. cbn [negb].
+  set (k := fresh_id (st_disk s)).
+  set (d := st_disk s) in *.
+  set (d1 := apply_effs d (save_snapshot_effs k sn)).
+  assert (Hm1 : load_manifest d1 = Some m).
+  { unfold load_manifest, d1. rewrite save_snapshot_other by discriminate. rewrite Hm. reflexivity. }
+  rewrite Hm1.
+  pose proof (maxseq_ge (all_entries d (m_segments m)) sseq) as Hge.
+  assert (Hlast : last + 1 = st_next_seq s) by (unfold last; lia).
+  destruct Hs as [Hq Hs]. rewrite Hq.
+  replace (last <? sseq) with false by (symmetry; apply N.ltb_ge; lia).
+  set (m1 := mkManifest (Some (NSnap k)) (Some last) (m_segments m)).
+  set (d2 := apply_effs d1 (save_manifest_effs m1)).
+  destruct (compact_segments d2 last (m_segments m)) as [keep del] eqn:EC.
+  destruct (compact_props _ _ _ _ _ EC) as (C1 & C2 & C3 & C4).
+  destruct (C3 Hnd) as [Cnd Cdis].
+  set (m2 := mkManifest (Some (NSnap k)) (Some last) keep).
+  cbn [snd].
+  assert (Hwal : forall x, In x (m_segments m) -> is_wal x) by (rewrite Forall_forall in Hw; exact Hw).
+  assert (R0 : Rec c (st_store s) d) by (eapply InvD_Rec; exact H).
+  assert (A1 : AllRec c (st_store s) d (save_snapshot_effs k sn))
+    by (apply AllRec_save_snapshot; [exact R0|apply fresh_none; reflexivity]).
+  (* facts about d1, d2 *)
+  assert (Hd1 : forall x, is_wal x -> dget d1 x = dget d x).
+  { intros x Hx. destruct (is_wal_neq _ Hx) as (_ & _ & N3 & N4). unfold d1.
+    apply save_snapshot_other; [apply N3|apply N4]. }
+  assert (Hd2 : forall x, is_wal x -> dget d2 x = dget d x).
+  { intros x Hx. destruct (is_wal_neq _ Hx) as (N1 & N2 & _). unfold d2.
+    rewrite save_manifest_other by assumption. apply Hd1. exact Hx. }
+  assert (Hd2s : dget d2 (NSnap k) = Some (FSnap sn)).
+  { unfold d2. rewrite save_manifest_other by discriminate. unfold d1. apply save_snapshot_get. }
+  assert (R2 : Rec c (st_store s) d2).
+  { exists m1. apply (RecM_snapshot c d (st_active s) (st_next_seq s) (st_store s) m d2 (m_segments m) k last
+                        H Hso Hdo Hlast Hm (fun x Hx => Hx)).
+    - unfold d2. apply save_manifest_get.
+    - exact Hd2s.
+    - intros x Hx. apply Hd2. apply Hwal. exact Hx. }
+  assert (A2 : AllRec c (st_store s) d1 (save_manifest_effs m1))
+    by (apply AllRec_save_manifest; [apply AllRec_end; exact A1|exact R2]).
+  (* pruned-manifest save + unlinks (only when something is deletable) *)
+  set (e3 := (match del with [] => [] | _ :: _ => save_manifest_effs m2 end) ++ map EUnlink del).
+  set (d4 := apply_effs d2 e3).
+  assert (A3 : AllRec c (st_store s) d2 e3 /\
+               (forall x, In x keep -> dget d4 x = dget d x) /\ dget d4 (NSnap k) = Some (FSnap sn)).
+  { unfold d4, e3. destruct del as [|x0 dr] eqn:Edel.
+    - cbn [map app]. split; [apply AllRec_nil; exact R2|]. split.
+      + intros x Hx. apply Hd2. apply Hwal. apply C1. exact Hx.
+      + exact Hd2s.
+    - rewrite <- Edel in *. set (d3 := apply_effs d2 (save_manifest_effs m2)).
+      assert (Hd3 : forall x, is_wal x -> dget d3 x = dget d x).
+      { intros x Hx. destruct (is_wal_neq _ Hx) as (N1 & N2 & _). unfold d3.
+        rewrite save_manifest_other by assumption. apply Hd2. exact Hx. }
+      assert (Hd3s : dget d3 (NSnap k) = Some (FSnap sn)).
+      { unfold d3. rewrite save_manifest_other by discriminate. exact Hd2s. }
+      assert (RM3 : RecM c (st_store s) d3 m2).
+      { apply (RecM_snapshot c d (st_active s) (st_next_seq s) (st_store s) m d3 keep k last
+                 H Hso Hdo Hlast Hm C1).
+        - unfold d3. apply save_manifest_get.
+        - exact Hd3s.
+        - intros x Hx. apply Hd3. apply Hwal. apply C1. exact Hx. }
+      assert (A3a : AllRec c (st_store s) d2 (save_manifest_effs m2))
+        by (apply AllRec_save_manifest; [exact R2|exists m2; exact RM3]).
+      assert (A3u : AllRec c (st_store s) d3 (map EUnlink del)).
+      { intros j torn _. exists m2. apply AllRec_untouched; [exact RM3|].
+        intros e x He Hx. apply in_map_iff in He. destruct He as (y & <- & Hy). cbn in Hx.
+        destruct Hx as [<-|[]]. destruct (Hwal _ (C2 _ Hy)) as [i Ei].
+        split; [rewrite Ei; discriminate|]. split; [apply Cdis; exact Hy|].
+        cbn [m_snapshot m2]. rewrite Ei. discriminate. }
+      split; [apply AllRec_app; [exact A3a|exact A3u]|].
+      rewrite apply_effs_app. fold d3. split.
+      + intros x Hx. rewrite unlinks_other by (intro Hin; apply (Cdis _ Hin Hx)).
+        apply Hd3. apply Hwal. apply C1. exact Hx.
+      + rewrite unlinks_other; [exact Hd3s|]. intro Hin. destruct (Hwal _ (C2 _ Hin)) as [i Ei]. discriminate. }
+  destruct A3 as (A3 & Hk4 & Hs4).
+  assert (R5 : Rec c (st_store s) (apply_effs d4 (save_manifest_effs m2))).
+  { exists m2. apply (RecM_snapshot c d (st_active s) (st_next_seq s) (st_store s) m _ keep k last
+                        H Hso Hdo Hlast Hm C1).
+    - apply save_manifest_get.
+    - rewrite save_manifest_other by discriminate. exact Hs4.
+    - intros x Hx. destruct (is_wal_neq _ (Hwal _ (C1 _ Hx))) as (N1 & N2 & _).
+      rewrite save_manifest_other by assumption. apply Hk4. exact Hx. }
+  assert (A4 : AllRec c (st_store s) d4 (save_manifest_effs m2))
+    by (apply AllRec_save_manifest; [apply AllRec_end; exact A3|exact R5]).
+  apply AllRec_app; [exact A1|]. fold d1.
+  apply AllRec_app; [exact A2|]. fold d2.
+  apply AllRec_app; [exact A3|]. fold d4. exact A4.
+Qed.
+
+Lemma maybe_snapshot_allrec : forall c s,
+  InvDs c (st_store s) s -> sorted (st_store s) -> docs_ok c (st_store s) ->
+  AllRec c (st_store s) (st_disk s) (snd (maybe_snapshot c s)).
+Proof.
+  intros c s H Hso Hdo. unfold maybe_snapshot.
+  destruct ((0 <? c_snapshot_interval c) && (c_snapshot_interval c <=? st_since_snap s)).
+  - pose proof (snapshot_allrec c s H Hso Hdo) as X.
+    destruct (create_snapshot c s) as [[s' o] e]. exact X.
+  - cbn [snd]. apply AllRec_nil. eapply InvD_Rec. exact H.
+Qed.
+
+(* ------------------------------------------------------------------------------------------ *)
+(* 6. Every operation: every prefix of its effect list recovers to old-or-new                  *)
+(* ------------------------------------------------------------------------------------------ *)
+
+Definition dims_ok (c : cfg) (es : list entry) : Prop :=
+  Forall (fun e => e_op e = Ins -> len (e_vec e) = c_dim c) es.
+
+(* the common shape of insert / delete / batch_delete / update_metadata after their pre-checks:
+   append es, rotate?, apply in memory, snapshot? *)
+Lemma write_op_crash : forall c s es s1 e1 s2 e2 s3 s4 e4 k torn,
+  Inv c s -> seqs_from (st_next_seq s) es -> dims_ok c es ->
+  append_entries c s es = (s1, e1) -> rotate_if_needed c s1 = (s2, e2) ->
+  st_disk s3 = st_disk s2 -> st_active s3 = st_active s2 -> st_next_seq s3 = st_next_seq s2 ->
+  st_store s3 = fold_left apply_entry es (st_store s) -> InvM c s3 ->
+  maybe_snapshot c s3 = (s4, e4) ->
+  (k <= length (e1 ++ e2 ++ e4))%nat ->
+  Rec c (fold_left apply_entry (firstn k es) (st_store s))
+      (crash_kill (st_disk s) (e1 ++ e2 ++ e4) k torn) /\
+  st_store s4 = fold_left apply_entry es (st_store s).
+Proof.
+  intros c s es s1 e1 s2 e2 s3 s4 e4 k torn [H M] Hsq Hdm E1 E2 D3 A3 N3 S3 M3 E4 Hk.
+  pose proof (append_inv c (st_store s) s es H Hsq Hdm) as A. rewrite E1 in A. cbn [fst] in A.
+  destruct A as (A1 & A2 & _).
+  pose proof (rotate_inv c _ s1 A1) as R. rewrite E2 in R. cbn [fst] in R. destruct R as (R1 & _).
+  assert (H3 : InvDs c (st_store s3) s3).
+  { unfold InvDs in *. rewrite D3, A3, N3, S3. exact R1. }
+  pose proof M3 as (So3 & Do3 & _).
+  pose proof (maybe_snapshot_inv c s3 H3 So3 Do3) as Q. rewrite E4 in Q. cbn [fst] in Q.
+  destruct Q as (_ & Q2 & _).
+  split; [|rewrite Q2; exact S3].
+  pose proof (append_disk _ _ _ _ _ E1) as Dk1.
+  assert (Ee1 : e1 = append_effs (st_active s) es ++ fsync_effs c (st_active s))
+    by (unfold append_entries in E1; inversion E1; reflexivity).
+  destruct (Nat.lt_ge_cases k (length e1)) as [L|G].
+  - rewrite crash_app_lt by exact L. rewrite Ee1. apply (append_crash c _ _ _ (st_next_seq s)); assumption.
+  - replace k with (length e1 + (k - length e1))%nat by lia. rewrite crash_app_ge, <- Dk1.
+    assert (Hlen : (length es <= length e1)%nat) by (rewrite Ee1, app_length, append_effs_length; lia).
+    rewrite firstn_all2 by lia.
+    assert (AR : AllRec c (fold_left apply_entry es (st_store s)) (st_disk s1) (e2 ++ e4)).
+    { apply AllRec_app.
+      - pose proof (rotate_allrec c _ s1 A1) as X. rewrite E2 in X. exact X.
+      - rewrite <- (rotate_disk _ _ _ _ E2), <- D3, <- S3.
+        pose proof (maybe_snapshot_allrec c s3 H3 So3 Do3) as X. rewrite E4 in X. exact X. }
+    apply AR. rewrite !app_length in *. lia.
+Qed.
+
+Lemma number_dels_length : forall ids b, length (number_dels b ids) = length ids.
+Proof. induction ids as [|i r IH]; intros b; cbn; [reflexivity|]. rewrite IH. reflexivity. Qed.
+
+Theorem step_crash : forall c s o s' out effs k torn,
+  wf_cfg c = true -> norm_ok c -> Inv c s ->
+  step c s o = (s', out, effs) -> (k <= length effs)%nat -> known_op s o k = false ->
+  Rec c (st_store s) (crash_kill (st_disk s) effs k torn) \/
+  Rec c (st_store s') (crash_kill (st_disk s) effs k torn).
+Proof.
+  intros c s o s' out effs k torn Hwf Hn HI Hst Hk Hkn.
+  pose proof HI as [H M].
+  assert (Hold : Rec c (st_store s) (st_disk s)) by (eapply InvD_Rec; exact H).
+  assert (Hnil : forall x, Rec c (st_store s) (crash_kill (st_disk s) [] x torn))
+    by (intros x; rewrite crash_nil; exact Hold).
+  destruct o as [id v m|id|ids|id m mg| |]; cbn [step] in Hst.
+  - (* insert *)
+    unfold do_insert in Hst.
+    destruct (N.eqb_spec (len v) (c_dim c)) as [Hlen|Hlen]; cbn [negb] in Hst;
+      [|inversion Hst; subst; left; apply Hnil].
+    destruct (normalize_if_needed c v) as [w|] eqn:Hw; [|inversion Hst; subst; left; apply Hnil].
+    destruct (c_accepts c w) eqn:Hacc; cbn [negb] in Hst; [|inversion Hst; subst; left; apply Hnil].
+    destruct (normalize_doc_ok c v w (meta_canon m) Hn Hlen Hw Hacc) as [Hdoc Hlw].
+    match type of Hst with context [if c_capacity c <=? st_slots ?x then _ else _] => set (s0 := x) in Hst end.
+    assert (H0 : InvDs c (st_store s) s0 /\ InvM c s0 /\ st_store s0 = st_store s /\ st_disk s0 = st_disk s).
+    { unfold s0. destruct ((c_capacity c <=? st_slots s) && (size (st_store s) <? st_slots s)); [|auto].
+      split; [exact H|]. split; [|split; reflexivity]. destruct M as (A & B & C & D).
+      unfold InvM. cbn [with_slots st_store st_slots]. repeat split; try assumption; lia. }
+    clearbody s0. destruct H0 as (H0 & M0 & E0 & D0).
+    destruct (N.leb_spec (c_capacity c) (st_slots s0)) as [Hfull|Hfull];
+      [inversion Hst; subst; left; apply Hnil|].
+    rewrite (InvDs_has_manifest _ _ _ H0) in Hst. cbn [negb] in Hst.
+    destruct (append_entries c s0 _) as [s1 e1] eqn:E1.
+    destruct (rotate_if_needed c s1) as [s2 e2] eqn:E2.
+    match type of Hst with context [maybe_snapshot c ?x] => set (s3 := x) in Hst end.
+    destruct (maybe_snapshot c s3) as [s4 e4] eqn:E4.
+    inversion Hst; subst s' out effs. clear Hst.
+    assert (Hdm0 : dims_ok c [mkEntry Ins id w (meta_canon m) (st_next_seq s0)])
+      by (constructor; [intros _; exact Hlw|constructor]).
+    pose proof (append_inv c (st_store s) s0 [mkEntry Ins id w (meta_canon m) (st_next_seq s0)] H0
+                  (conj eq_refl I) Hdm0) as A.
+    rewrite E1 in A. cbn [fst] in A. destruct A as (A1 & A2 & A3 & _).
+    pose proof (rotate_inv c _ s1 A1) as R. rewrite E2 in R. cbn [fst] in R. destruct R as (R1 & R2 & R3 & _).
+    assert (M3 : InvM c s3).
+    { destruct M0 as (A & B & C & D). rewrite E0 in A, B, C.
+      unfold s3, InvM. cbn [st_store st_slots]. rewrite R2, A2, E0, R3, A3.
+      split; [apply sorted_set; exact A|]. split; [apply docs_ok_set; assumption|].
+      pose proof (size_set_le (st_store s) id (mkDoc w (meta_canon m))). split; lia. }
+    assert (HI0 : Inv c s0) by (split; [rewrite E0; exact H0|exact M0]).
+    destruct (write_op_crash c s0 [mkEntry Ins id w (meta_canon m) (st_next_seq s0)]
+                s1 e1 s2 e2 s3 s4 e4 k torn HI0 (conj eq_refl I) Hdm0 E1 E2 eq_refl eq_refl eq_refl
+                ltac:(unfold s3; cbn [st_store fold_left apply_entry e_op e_id e_vec e_meta];
+                      rewrite R2, A2; reflexivity) M3 E4 Hk) as [W W2].
+    rewrite D0, E0 in W. rewrite E0 in W2.
+    destruct k as [|k]; [left; exact W|right]. cbn [firstn] in W. rewrite firstn_nil in W.
+    rewrite W2. exact W.
+  - (* delete *)
+    unfold do_delete in Hst.
+    destruct (get (st_store s) id) as [d|] eqn:Hg; [|inversion Hst; subst; left; apply Hnil].
+    rewrite (InvDs_has_manifest _ _ _ H) in Hst. cbn [negb] in Hst.
+    destruct (append_entries c s _) as [s1 e1] eqn:E1.
+    destruct (rotate_if_needed c s1) as [s2 e2] eqn:E2.
+    match type of Hst with context [maybe_snapshot c ?x] => set (s3 := x) in Hst end.
+    destruct (maybe_snapshot c s3) as [s4 e4] eqn:E4.
+    inversion Hst; subst s' out effs. clear Hst.
+    assert (Hdm : dims_ok c [mkEntry Del id [] [] (st_next_seq s)])
+      by (constructor; [intros E; discriminate|constructor]).
+    pose proof (append_inv c (st_store s) s [mkEntry Del id [] [] (st_next_seq s)] H (conj eq_refl I) Hdm) as A.
+    rewrite E1 in A. cbn [fst] in A. destruct A as (A1 & A2 & A3 & _).
+    pose proof (rotate_inv c _ s1 A1) as R. rewrite E2 in R. cbn [fst] in R. destruct R as (R1 & R2 & R3 & _).
+    assert (M3 : InvM c s3).
+    { destruct M as (A & B & C & D).
+      unfold s3, InvM. cbn [with_since with_store st_store st_slots]. rewrite R2, A2, R3, A3.
+      split; [apply sorted_remove; exact A|]. split; [apply docs_ok_remove; exact B|].
+      pose proof (size_remove_le (st_store s) id). split; lia. }
+    destruct (write_op_crash c s [mkEntry Del id [] [] (st_next_seq s)] s1 e1 s2 e2 s3 s4 e4 k torn HI
+                (conj eq_refl I) Hdm E1 E2 eq_refl eq_refl eq_refl
+                ltac:(unfold s3; cbn [with_since with_store st_store fold_left apply_entry e_op e_id];
+                      rewrite R2, A2; reflexivity) M3 E4 Hk) as [W W2].
+    destruct k as [|k]; [left; exact W|right]. cbn [firstn] in W. rewrite firstn_nil in W.
+    rewrite W2. exact W.
+  - (* batch delete *)
+    unfold do_batch_delete in Hst. cbn [known_op] in Hkn.
+    destruct (filter (mem (st_store s)) ids) as [|l0 lr]; [inversion Hst; subst; left; apply Hnil|].
+    remember (l0 :: lr) as live eqn:Elive.
+    assert (Hlive : (1 <= length live)%nat) by (subst live; cbn; lia).
+    assert (Hst' : (if negb (has_manifest (st_disk s)) then (s, OErrIo, [])
+                    else let '(s1, e1) := append_entries c s (number_dels (st_next_seq s) live) in
+                         let '(s2, e2) := rotate_if_needed c s1 in
+                         let '(m', cnt) := apply_batch (st_store s2) live 0 in
+                         let s3 := with_since (with_store s2 m') (st_since_snap s2 + len live) in
+                         let '(s4, e4) := maybe_snapshot c s3 in (s4, OCount cnt, e1 ++ e2 ++ e4))
+                   = (s', out, effs)) by (subst live; exact Hst).
+    clear Hst. rename Hst' into Hst. clear Elive l0 lr.
+    rewrite (InvDs_has_manifest _ _ _ H) in Hst. cbn [negb] in Hst.
+    destruct (append_entries c s _) as [s1 e1] eqn:E1.
+    destruct (rotate_if_needed c s1) as [s2 e2] eqn:E2.
+    pose proof (apply_batch_fst live (st_store s2) 0) as Eb.
+    destruct (apply_batch (st_store s2) live 0) as [m' cnt]. cbn [fst] in Eb. subst m'.
+    match type of Hst with context [maybe_snapshot c ?x] => set (s3 := x) in Hst end.
+    destruct (maybe_snapshot c s3) as [s4 e4] eqn:E4.
+    inversion Hst; subst s' out effs. clear Hst.
+    pose proof (append_inv c (st_store s) s _ H (number_dels_seqs live (st_next_seq s))
+                  (number_dels_dims c live (st_next_seq s))) as A.
+    rewrite E1 in A. cbn [fst] in A. destruct A as (A1 & A2 & A3 & _).
+    pose proof (rotate_inv c _ s1 A1) as R. rewrite E2 in R. cbn [fst] in R. destruct R as (R1 & R2 & R3 & _).
+    destruct M as (A & B & C & D).
+    destruct (remove_all_ok c live (st_store s) A B) as (X & Y & Z).
+    assert (M3 : InvM c s3).
+    { unfold s3, InvM. cbn [with_since with_store st_store st_slots]. rewrite R2, A2, R3, A3.
+      repeat split; try assumption; lia. }
+    destruct (write_op_crash c s _ s1 e1 s2 e2 s3 s4 e4 k torn HI (number_dels_seqs live (st_next_seq s))
+                (number_dels_dims c live (st_next_seq s)) E1 E2 eq_refl eq_refl eq_refl
+                ltac:(unfold s3; cbn [with_since with_store st_store]; rewrite R2, A2, fold_number_dels;
+                      reflexivity) M3 E4 Hk) as [W W2].
+    destruct k as [|k]; [left; exact W|].
+    destruct (Nat.lt_ge_cases (S k) (length live)) as [L|G].
+    + exfalso. assert (Hk2 : (2 <= length live)%nat) by lia.
+      apply Nat.leb_le in Hk2. apply Nat.ltb_lt in L. rewrite Hk2, L in Hkn. discriminate.
+    + right. rewrite firstn_all2 in W by (rewrite number_dels_length; exact G). rewrite W2. exact W.
+  - (* update metadata *)
+    unfold do_update in Hst.
+    destruct (get (st_store s) id) as [d|] eqn:Hg; [|inversion Hst; subst; left; apply Hnil].
+    set (upd := if mg then meta_merge (d_meta d) m else meta_canon m) in Hst. clearbody upd.
+    rewrite (InvDs_has_manifest _ _ _ H) in Hst. cbn [negb] in Hst.
+    destruct (append_entries c s _) as [s1 e1] eqn:E1.
+    destruct (rotate_if_needed c s1) as [s2 e2] eqn:E2.
+    match type of Hst with context [maybe_snapshot c ?x] => set (s3 := x) in Hst end.
+    destruct (maybe_snapshot c s3) as [s4 e4] eqn:E4.
+    inversion Hst; subst s' out effs. clear Hst.
+    assert (Hdm : dims_ok c [mkEntry Upd id [] upd (st_next_seq s)])
+      by (constructor; [intros E; discriminate|constructor]).
+    pose proof (append_inv c (st_store s) s [mkEntry Upd id [] upd (st_next_seq s)] H (conj eq_refl I) Hdm) as A.
+    rewrite E1 in A. cbn [fst] in A. destruct A as (A1 & A2 & A3 & _).
+    pose proof (rotate_inv c _ s1 A1) as R. rewrite E2 in R. cbn [fst] in R. destruct R as (R1 & R2 & R3 & _).
+    assert (M3 : InvM c s3).
+    { destruct M as (A & B & C & D).
+      unfold s3, InvM. cbn [with_since with_store st_store st_slots]. rewrite R2, A2, R3, A3.
+      split; [apply sorted_set; exact A|]. split.
+      - apply docs_ok_set; [exact B|]. exact (docs_ok_get c _ _ _ B Hg).
+      - pose proof (length_set_present (st_store s) id (mkDoc (d_vec d) upd) d A Hg) as L.
+        unfold size in *. rewrite L. split; lia. }
+    destruct (write_op_crash c s [mkEntry Upd id [] upd (st_next_seq s)] s1 e1 s2 e2 s3 s4 e4 k torn HI
+                (conj eq_refl I) Hdm E1 E2 eq_refl eq_refl eq_refl
+                ltac:(unfold s3; cbn [with_since with_store st_store fold_left apply_entry e_op e_id e_meta];
+                      unfold upd_meta; rewrite R2, A2, Hg; reflexivity) M3 E4 Hk) as [W W2].
+    destruct k as [|k]; [left; exact W|right]. cbn [firstn] in W. rewrite firstn_nil in W.
+    rewrite W2. exact W.
+  - (* manual snapshot *)
+    left. destruct M as (A & B & _). pose proof (snapshot_allrec c s H A B) as X.
+    rewrite Hst in X. cbn [snd] in X. apply X. exact Hk.
+  - (* restart *)
+    destruct (recover_inv c s Hwf HI) as (r & ef & E & _).
+    rewrite E in Hst. inversion Hst; subst. left.
+    exact (recover_allrec c s s' effs Hwf HI E k torn Hk).
+Qed.
+
+(* ------------------------------------------------------------------------------------------ *)
+(* 7. C01, process-kill model                                                                  *)
+(* ------------------------------------------------------------------------------------------ *)
+
+Lemma Inv_mem : forall c s, Inv c s -> docs_ok c (st_store s) /\ size (st_store s) <= c_capacity c.
+Proof. intros c s [_ (A & B & C & D)]. split; [exact B|lia]. Qed.
+
+(* crash inside (or right before / right after) one operation *)
+Theorem kill_op : forall c s o s' out effs k torn,
+  wf_cfg c = true -> norm_ok c -> Inv c s ->
+  step c s o = (s', out, effs) -> (k <= length effs)%nat -> known_op s o k = false ->
+  exists r, start c (crash_kill (st_disk s) effs k torn) = SOk r /\
+            (st_store r = st_store s \/ st_store r = st_store s').
+Proof.
+  intros c s o s' out effs k torn Hwf Hn HI Hst Hk Hkn.
+  assert (HI' : Inv c s').
+  { pose proof (step_inv c s o Hwf Hn HI) as X. unfold step_state in X. rewrite Hst in X. exact X. }
+  destruct (Inv_mem _ _ HI) as [D1 S1]. destruct (Inv_mem _ _ HI') as [D2 S2].
+  destruct (step_crash c s o s' out effs k torn Hwf Hn HI Hst Hk Hkn) as [R|R].
+  - destruct (Rec_start c _ _ Hwf R D1 S1) as (r & E & Es). exists r. auto.
+  - destruct (Rec_start c _ _ Hwf R D2 S2) as (r & E & Es). exists r. auto.
+Qed.
+
+(* crash anywhere in a history run from an invariant state (global effect index) *)
+Theorem kill_run : forall c ops s n torn,
+  wf_cfg c = true -> norm_ok c -> Inv c s -> known_run c s ops n = false ->
+  exists r, start c (cp_dir (crash_run c s ops n torn)) = SOk r /\
+            (st_store r = cp_acked (crash_run c s ops n torn) \/
+             st_store r = cp_inflight (crash_run c s ops n torn)).
+Proof.
+  intros c ops. induction ops as [|o rest IH]; intros s n torn Hwf Hn HI Hkn.
+  - cbn [crash_run cp_dir cp_acked cp_inflight]. destruct (Inv_mem _ _ HI) as [D1 S1].
+    destruct HI as [H _].
+    destruct (Rec_start c _ _ Hwf (InvD_Rec _ _ _ _ _ H) D1 S1) as (r & E & Es). exists r. auto.
+  - cbn [crash_run known_run] in *. destruct (step c s o) as [[s' out] effs] eqn:Hst.
+    destruct (Nat.leb n (length effs)) eqn:Hle.
+    + cbn [cp_dir cp_acked cp_inflight]. apply Nat.leb_le in Hle.
+      exact (kill_op c s o s' out effs n torn Hwf Hn HI Hst Hle Hkn).
+    + apply IH; try assumption.
+      pose proof (step_inv c s o Hwf Hn HI) as X. unfold step_state in X. rewrite Hst in X. exact X.
+Qed.
+
+(* crash during the very first start-up on the empty directory *)
+Lemma kill_init : forall c n torn, wf_cfg c = true -> (n <= length init_effs)%nat ->
+  exists r, start c (crash_kill [] init_effs n torn) = SOk r /\ st_store r = empty.
+Proof.
+  intros c n torn Hwf Hn. cbn in Hn.
+  destruct (Nat.le_gt_cases 7 n) as [G|L].
+  - assert (E : crash_kill [] init_effs n torn = st_disk (init c)).
+    { assert (n = 7 \/ n = 8)%nat as [->| ->] by lia; destruct torn; reflexivity. }
+    rewrite E. pose proof (init_inv c Hwf) as HI. destruct (Inv_mem _ _ HI) as [D1 S1]. destruct HI as [H _].
+    exact (Rec_start c _ _ Hwf (InvD_Rec _ _ _ _ _ H) D1 S1).
+  - assert (n = 0 \/ n = 1 \/ n = 2 \/ n = 3 \/ n = 4 \/ n = 5 \/ n = 6)%nat
+      as [->|[->|[->|[->|[->|[->| ->]]]]]] by lia;
+      destruct torn; (eexists; split; [vm_compute; reflexivity|reflexivity]).
+Qed.
+
+Theorem kill_hist : forall c ops n torn,
+  wf_cfg c = true -> norm_ok c -> known_c01 c ops n = false ->
+  exists r, start c (cp_dir (crash_hist c ops n torn)) = SOk r /\
+            (st_store r = cp_acked (crash_hist c ops n torn) \/
+             st_store r = cp_inflight (crash_hist c ops n torn)).
+Proof.
+  intros c ops n torn Hwf Hn Hkn. unfold crash_hist, known_c01 in *.
+  destruct (Nat.leb n (length init_effs)) eqn:Hle.
+  - cbn [cp_dir cp_acked cp_inflight]. apply Nat.leb_le in Hle.
+    destruct (kill_init c n torn Hwf Hle) as (r & E & Es). exists r. auto.
+  - apply kill_run; try assumption. apply init_inv. exact Hwf.
+Qed.
+
+(* a crash at any prefix of start-up's own effects leaves a directory on which start-up yields the
+   same collection *)
+Theorem restart_idem : forall c ops k torn s' effs,
+  wf_cfg c = true -> norm_ok c ->
+  recover_full c Strict (st_disk (run c ops)) = Ok (s', effs) -> (k <= length effs)%nat ->
+  exists r, start c (crash_kill (st_disk (run c ops)) effs k torn) = SOk r /\
+            st_store r = st_store (run c ops) /\ st_store s' = st_store (run c ops).
+Proof.
+  intros c ops k torn s' effs Hwf Hn E Hk.
+  pose proof (run_inv c ops Hwf Hn) as HI.
+  destruct (Inv_mem _ _ HI) as [D1 S1].
+  pose proof (recover_allrec c _ s' effs Hwf HI E k torn Hk) as R.
+  destruct (Rec_start c _ _ Hwf R D1 S1) as (r & Er & Es). exists r. split; [exact Er|]. split; [exact Es|].
+  destruct (recover_inv c _ Hwf HI) as (s2 & e2 & E2 & Es2 & _). rewrite E in E2. inversion E2; subst. exact Es2.
 Qed.
